@@ -414,6 +414,130 @@ def h_tiles_geometry(nrect):
 
 
 
+# ---- Q8: a query whose straight edges are not straight in the raster's CRS -----------------------
+def _bulged_query(body, bulge, crs, log):
+    from .c14 import _Rects
+
+    class _Bulged(_Rects):
+        """a rectangle in another CRS.  Its image in the raster's CRS is the rectangle spanned by
+        the images of its corners PLUS a bulge hanging from its lower edge between the corners
+        (what a projection does to a straight edge).  to_crs() without a finite resolution maps
+        the vertices only (the library's contract: 'project the geometry as is'); with one, the
+        edge is followed"""
+
+        def to_crs(self, crs_, resolution=None, *a, **kw):
+            from odc.geo.crs import norm_crs
+
+            c = norm_crs(crs_)
+            log.append(("to_crs", c, resolution))
+            if c == self.crs:
+                return self
+            dense = resolution is not None and (resolution == "auto" or resolution == resolution and resolution not in (float("inf"),))
+            return _Rects([body, bulge] if dense else [body], c)
+
+    return _Bulged([body], crs)
+
+
+def h_tiles_other_crs_bulge(via):
+    """tiles(query in another CRS) / grid_intersect across CRSs: a tile reached only through the
+    bend of an edge is listed all the same"""
+    from affine import Affine
+
+    import odc.geo.geobox as gbx
+
+    g = gbx.GeoBox((48, 64), Affine(rconst(10), 0.0, rconst(0), 0.0, rconst(-10), rconst(480)), "epsg:3857")  # world box [0,640] x [0,480]
+    gbt = gbx.GeoboxTiles(g, (16, 16))  # 3 x 4 tiles of 160 x 160
+    l, b, w, h = Real("l"), Real("b"), Real("w"), Real("h")
+    assume(And(w > 0, h > 0, w <= 300, h <= 300, l >= -100, l <= 700, b >= -100, b <= 600))
+    m, bw, depth = Real("m"), Real("bulge_width"), Real("bulge_depth")
+    assume(And(bw > 0, depth > 0, depth <= 60, m - bw / 2 >= l, m + bw / 2 <= l + w))  # between the corners
+    body = (l, b, l + w, b + h)
+    bulge = (m - bw / 2, b - depth, m + bw / 2, b)
+    log = []
+    q = _bulged_query(body, bulge, "epsg:4326", log)
+    if via == "tiles":
+        got = list(gbt.tiles(q))
+    else:
+        # dependency graph: the destination raster is the query's grid; its tile outline is the query
+        class _DstBase:
+            crs = q.crs
+            extent = q
+
+            def footprint(self, crs, buffer=0, npoints=100):
+                return q.to_crs(crs, resolution=1.0)
+
+        class _Dst(gbx.GeoboxTiles):
+            def __init__(self):
+                pass
+
+            base = _DstBase()
+
+            def _check_linear(self, src):
+                return None
+
+            def tiles(self, query):
+                return iter([(0, 0)])
+
+            def __getitem__(self, idx):
+                return _DstBase()
+
+        class _Common:
+            is_empty = False
+
+            def __and__(self, o):
+                return self
+
+            def to_crs(self, *a, **kw):
+                return self
+
+        saved = gbx.GeoBox.footprint
+        gbx.GeoBox.footprint = lambda self, crs, buffer=0, npoints=100: _Common()
+        try:
+            deps = _Dst().grid_intersect(gbt)
+        finally:
+            gbx.GeoBox.footprint = saved
+        got = deps[(0, 0)]
+    jr, jc = Int("jr", 0, 2), Int("jc", 0, 3)
+    x0, x1 = 160 * jc, 160 * (jc + 1)
+    y1, y0 = 480 - 160 * jr, 480 - 160 * (jr + 1)
+    listed = Or(*[And(jr == t[0], jc == t[1]) for t in got]) if got else False
+    meets_body = And(x1 > ex(body[0]), x0 < ex(body[2]), y1 > ex(body[1]), y0 < ex(body[3]))
+    meets_bulge = And(x1 > ex(bulge[0]), x0 < ex(bulge[2]), y1 > ex(bulge[1]), y0 < ex(bulge[3]))
+    prove("tile_meeting_the_quadrilateral_of_the_corners_is_listed", listed, when=meets_body)
+    prove("tile_reached_only_through_the_bend_of_an_edge_is_listed", listed, when=And(meets_bulge, Not(meets_body)))
+
+
+def replay_bulge(param, model):
+    """the same law on real PROJ: an Albers destination tile over a lon/lat source raster; which
+    source tiles are needed is computed pixel by pixel with pyproj, and compared with what the
+    library lists"""
+    import numpy as np
+
+    from odc.geo.geobox import GeoBox, GeoboxTiles
+
+    src = GeoBox.from_bbox((140, -40, 150, -30), "epsg:4326", shape=(60, 70))
+    dst = src.to_crs("epsg:3577").pad(20)
+    s = GeoboxTiles(src, ((17, 23, 20), (31, 9, 30)))
+    d = GeoboxTiles(dst, (7, 300))
+    idx = (9, 0)
+    tile = d[idx]
+    if param["via"] == "tiles":
+        listed = set(s.tiles(tile.extent))
+    else:
+        listed = set(d.grid_intersect(s).get(idx, []))
+    ny, nx = tile.shape
+    xx, yy = np.meshgrid(np.arange(nx) + 0.5, np.arange(ny) + 0.5)
+    wx, wy = tile.pix2wld(xx.ravel(), yy.ravel())
+    tr = dst.crs.transformer_to_crs(src.crs)
+    lon, lat = tr(wx, wy)
+    px, py = src.wld2pix(np.asarray(lon), np.asarray(lat))
+    ok = (px >= 0) & (px < 70) & (py >= 0) & (py < 60)
+    need = {s.roi.locate((int(y), int(x))) for x, y in zip(px[ok], py[ok])}
+    missing = sorted(need - listed)
+    return {"reproduced": bool(missing), "witness": "GeoBox.from_bbox((140,-40,150,-30),'epsg:4326',shape=(60,70)) tiled ((17,23,20),(31,9,30)); destination = its Albers (3577) grid padded by 20, 7x300 chunks, tile (9,0)",
+            "needed_but_not_listed": [list(map(int, t)) for t in missing], "model": model}
+
+
 TS_Q = [(1, 1), (3, 7), (16, 256)]
 TS_T = TS_Q + [(256, 16), (2, 2), (512, 512), (7, 1)]
 GI_Q = [dict(k="1", mx=1, n_dst=4, n_src=4, axis="x"), dict(k="2", mx=1, n_dst=2, n_src=4, axis="y"), dict(k="1", mx=-1, n_dst=4, n_src=3, axis="x"), dict(k="1/2", mx=1, n_dst=4, n_src=2, axis="y")]
@@ -446,6 +570,12 @@ OBLIGATIONS = [
        descr="tiles(geometry) with a (multi-part) stand-in geometry: only tiles meeting a part (none for a geometry outside the raster), every tile meeting one in positive area",
        functions=("odc.geo.geobox.GeoboxTiles.tiles", "odc.geo.geobox.GeoboxTiles.range_from_bbox"), bounds="48 x 64 raster in 3 x 4 tiles; parts up to 100 x 100 units anywhere from far outside to inside",
        stubs=("union-of-rectangles geometry answering to_crs / boundingbox / disjoint exactly", "vertex-list tile footprints"), setup=setup_range_geom, timeout_ms=20000),
+    Ob("Q8_other_crs_bent_edges", h_tiles_other_crs_bulge, fixed(dict(via="tiles"), dict(via="grid_intersect")),
+       descr="a query polygon / destination tile in another CRS whose straight edge bends in the raster's CRS: tiles reached only through the bend are listed too (tile query and dependency graph)",
+       functions=("odc.geo.geobox.GeoboxTiles.tiles", "odc.geo.geobox.GeoboxTiles.grid_intersect", "odc.geo.geobox.GeoboxTiles.range_from_bbox"),
+       bounds="query rectangle, position / width / depth (<= 60 m) of the bend symbolic; 3x4 tiles of 16 px",
+       stubs=("union-of-rectangles geometry whose to_crs() maps the vertices only unless a finite resolution is given (the library's own contract for to_crs); PROJ itself replaced by that stand-in, replay on real PROJ with a fixed witness",),
+       setup=setup_range_geom, timeout_ms=20000, custom_replay=replay_bulge),
     Ob("Q2_disjoint_no_error", h_disjoint_no_error, fixed(dict(axis="x"), dict(axis="y")), descr="same-CRS rasters that do not overlap (apart or touching): no error and no dependencies",
        functions=("odc.geo.geobox.GeoboxTiles.grid_intersect",), bounds="gap >= 0 symbolic, either side", setup=setup),
 ]
